@@ -26,6 +26,8 @@ func runC20(c *Ctx) {
 		run  func(*Ctx)
 	}{
 		{"c01", runC01}, {"c05", runC05}, {"c11", runC11}, {"c12", runC12}, {"c13", runC13}, {"client", c20Client}, {"session", c20Session}, {"client", c20Client},
+		// beyond the property's list: the error paths, handshakes, streams and adversarial peers of the other checks
+		{"errors", c20Errors}, {"c03", runC03}, {"c06", runC06}, {"c04", runC04}, {"c10", runC10}, {"c09", runC09}, {"c07", runC07}, {"c16", runC16}, {"c15", runC15},
 	}
 	sub := subs[int(c.Run)%len(subs)]
 	c.SetPlan("workload", sub.name)
@@ -182,5 +184,50 @@ func c20Session(c *Ctx) {
 		})
 	}))
 	s.WaitTasks(20*time.Minute, tasks...)
+	s.Settle(10 * time.Millisecond)
+}
+
+// c20Errors: several peers hit the error paths of one server at the same time (unknown methods,
+// missing and ill-typed parameters, unregistered names) next to valid requests.
+func c20Errors(c *Ctx) {
+	s, t := c.S, c.T
+	mode := allModes[t.Draw(len(allModes))]
+	c.SetPlan("mode", mode)
+	w := newWorld(c, mode, "srv")
+	w.register(func(r registrar) { registerC03(c, r, w.Count) })
+	var tasks []*sim.Task
+	for k := 0; k < 2+t.Draw(3); k++ {
+		peer, err := newRawPeer(c, w, fmt.Sprintf("peer%d", k), false)
+		if err != nil {
+			return
+		}
+		n := 3 + t.Draw(5)
+		tasks = append(tasks, s.Go(fmt.Sprintf("peer%d", k), func() {
+			for i := 0; i < n; i++ {
+				id := fmt.Sprintf("p%d-%d", k, i)
+				var raw []byte
+				switch c.T.Draw(7) {
+				case 0:
+					raw = rpcReq(id, "verif/unknown", nil)
+				case 1:
+					raw = rpcReq(id, "tools/call", map[string]interface{}{"name": 7})
+				case 2:
+					raw = rpcReq(id, "tools/call", map[string]interface{}{"name": "no-such-tool"})
+				case 3:
+					raw = rpcReq(id, "prompts/get", map[string]interface{}{})
+				case 4:
+					raw = rpcReq(id, "resources/read", map[string]interface{}{"uri": "res://none"})
+				case 5:
+					raw = rpcReq(id, "tools/call", map[string]interface{}{"name": "fail", "arguments": map[string]interface{}{"nonce": id}})
+				default:
+					raw = rpcReq(id, "ping", nil)
+				}
+				peer.post(raw)
+				s.Yield("peer#next")
+			}
+			peer.close()
+		}))
+	}
+	s.WaitTasks(10*time.Minute, tasks...)
 	s.Settle(10 * time.Millisecond)
 }
